@@ -1656,7 +1656,7 @@ process_directive(int c) {
   loc.first_line = get_line_number();
   loc.first_column = get_col_number();
 
-  c = get_preprocessor_args(c, args);
+  c = get_preprocessor_args(c, args, command == "include");
 
   loc.last_line = get_line_number();
   loc.last_column = 0;
@@ -1727,12 +1727,28 @@ get_preprocessor_command(int c, string &command) {
  *
  */
 int CPPPreprocessor::
-get_preprocessor_args(int c, string &args) {
+get_preprocessor_args(int c, string &args, bool header_name) {
   // Following the command, the rest of the line, as well as any text on
   // successive lines, is part of the arguments to the command.
 
   // Check for comments first.
   c = skip_comment(c);
+
+  if (header_name && (c == '"' || c == '<')) {
+    // The operand of #include is a header-name: a // or /* inside the
+    // delimiters is part of the file name and does not start a comment.
+    int close = (c == '"') ? '"' : '>';
+    args += c;
+    c = get();
+    while (c != EOF && c != '\n' && c != close) {
+      args += c;
+      c = get();
+    }
+    if (c == close) {
+      args += c;
+      c = skip_comment(get());
+    }
+  }
 
   while (c != EOF && c != '\n') {
     if (c == '\\') {
